@@ -56,6 +56,32 @@ claim("C18",
  "static analysis: summary-based mutation-footprint analysis with global roots (E1), VTA call graph for table-driven dispatch, initialiser census, who-may-call for nondeterminism sources",
  "DESIGN.md §3 C18")
 
+claim("C02",
+ "Static analysis of the assignment primitives with engine E1 summaries: UpdateFrom / UpdateAttributesFrom store nothing of the assigned value into the target but scalars, fresh deep copies and the Alias pointer, replace Kind/Content/Value on every path (CFG must-pass-through), and write only fields of the receiver; everything the ASSIGN handlers write goes through them on a match or is guarded auto-creation; compound assignment applies its operator to a Copy() of the match; and the 42 operand evaluations that are read-only on the pinned tree (RHS of `=`, index expressions, operator operands) stay read-only. Necessary conditions of put-get / put-put / frame: aliasing RHS nodes, a store outside the receiver, or a writable operand evaluation each break a law for some input.",
+ TB + " Read-only reference table: ref_readonly.go.",
+ "static analysis: summary-based mutation-footprint / provenance analysis (E1), CFG must-pass-through, SSA pattern for the copy in compound assignment, evaluation-site census",
+ "DESIGN.md §3 C02")
+claim("C03",
+ "Static analysis of delete: the E1 footprints of deleteFromMap / deleteFromArray are exactly {parent.Content, index keys of surviving children} and everything deleteChildOperator writes goes through them; the selection is evaluated read-only; the victim is located by equality (no glob/pattern matcher reachable, no string==interface{} comparison); AddChild's key discipline (one known finding: a child that already has a key keeps its old index, which makes delete on re-ordered containers remove the wrong element). Necessary conditions only.",
+ TB,
+ "static analysis: E1 footprint comparison against the expected set, static reachability (who-may-call the glob matcher), SSA comparison-shape rule",
+ "DESIGN.md §3 C03")
+claim("C04",
+ "Static analysis of deep merge: E1 shows that from the MULTIPLY handler through the crossFunction callback, mergeObjects and applyAssignment (locally built ASSIGN / ASSIGN_ATTRIBUTES / ADD_ASSIGN expressions evaluated on a fresh copy of the left operand) no store reaches a node of the operands or the context; the writable context created for the merge never meets a user sub-expression; UpdateFrom deep-copies (result shares no node with the right operand); a reaching-definitions check shows the merge preferences always carry DontFollowAlias. Necessary conditions of operand immutability.",
+ TB,
+ "static analysis: summary-based mutation-footprint analysis (E1) incl. locally built dynamic evaluations, writable-context taint, CFG reaching-definitions on a preference field",
+ "DESIGN.md §3 C04")
+claim("C07",
+ "Static analysis of what an update may touch: footprints of the assignment primitives and of delete confined to the addressed node / the parent's child list (E1); every comment / style / anchor / tag store in UpdateAttributesFrom is control-dependent on the new value bringing that attribute (dominator guards); Copy() carries every CandidateNode field and shares nothing but Parent/Alias; operands evaluated read-only on the pinned tree stay read-only (an index expression may not auto-create keys outside the target). Necessary conditions: an unconditional attribute store or a store outside the target is exactly 'presentation changed without being asked'.",
+ TB,
+ "static analysis: E1 footprints, dominator-guard recognition per attribute store, struct-literal field coverage, evaluation-site census",
+ "DESIGN.md §3 C07")
+claim("C16",
+ "Static analysis of the position attributes: AddChild / AddKeyValueChild / CopyAsReplacement establish Parent and Key (one known finding: AddChild keeps a stale index key); every direct store into a Content slot stores a positioned node (CopyAsReplacement / CreateReplacement result, permutation of existing children, created as child of the container, or re-keyed in place); Copy shares nothing but Parent/Alias with the original (E1 result summary), so renumbering one never rewrites the other; key/path/parent read only the recorded attributes. Necessary conditions of path(n) naming where n is.",
+ TB,
+ "static analysis: E1 result/sharing summaries, SSA store-provenance rule for Content slots, branch-shape rule in AddChild, static-reach field-read census",
+ "DESIGN.md §3 C16")
+
 na = {
  "C01": "whole-property quantifies over runtime values of all programs x documents; no structural clause with detection value beyond what C09/C11 already check (DESIGN.md §3 C01)",
 }
